@@ -120,7 +120,15 @@ def run_case(case):
         if len(A) == 1:
             slA = min(slA, 1)
         slA = max(0, min(slA, len(A) - 2)) if len(A) >= 2 else slA
+    if group != 'irreducible' and rng.random() < 0.4:   # equal public lengths: the fast paths of _add/_sub/_if_else/_if_swap
+        n = max(len(A) + slA, len(B) + slB)
+        slA, slB = n - len(A), n - len(B)
     PA, PB = A + [0] * slA, B + [0] * slB        # padded
+    if group == 'cmp' and not PA and not PB:   # `<` of two LENGTH-0 secure polynomials raises IndexError (np_fromlist([]) in _lt): note in the report
+        PA = [0]
+    if 'PA' in case:     # explicit inputs (replays are independent of the generator)
+        PA, PB = [int(x) for x in case['PA']], [int(x) for x in case['PB']]
+        A, B = plist(poly, poly(PA)), plist(poly, poly(PB))
     a, b = poly(A), poly(B)
     n1, n2 = rng.randint(0, 4), rng.randint(0, 4)
     x0 = rng.randrange(p)
@@ -256,8 +264,11 @@ def run_case(case):
         return items, vals
 
     sched = None
-    if m > 1 and rng.random() < 0.2:
-        sched = Scheduler(case['seed'], rng.choice(['random', 'lazynet', 'eagernet']))
+    smode = rng.choice(['random', 'lazynet', 'eagernet']) if (m > 1 and rng.random() < 0.2) else None
+    smode = case.get('sched', smode)
+    if smode:
+        sched = Scheduler(case['seed'], smode)
+    res['PA'], res['PB'], res['sched'] = PA, PB, smode
     try:
         outs = SimNet(m, None, no_prss=no_prss, seed=case['seed'] & 0xffff, sched=sched, max_steps=5_000_000).run(prog)
     except Deadlock as exc:
@@ -300,7 +311,7 @@ def run_case(case):
             elif opn in ('plt', 'peq'):
                 res['lean'].append((f'{opn} {p} {ints(pad[1])} {ints(pad[2])}', str(int(v))))
     res['sample'] = {'program': res['program'], 'results': [(n, repr(v)[:60]) for n, v, _ in vals[:6]]}
-    res['tags'] = [f'slack:{slA}+{slB}', f'len:{len(PA)},{len(PB)}']
+    res['tags'] = [f'slack:{slA}+{slB}', 'equal-lengths' if len(PA) == len(PB) else 'different-lengths']
     return res
 
 
@@ -315,12 +326,15 @@ def fail(res, failure, detail, expected=None, observed=None, op=None):
 
 
 def _worker(case):
+    import gc
     try:
         if case.get('directed'):
             return run_directed(case)
         return run_case(case)
     except BaseException as exc:  # noqa
         return {'case': case, 'status': 'infra', 'detail': traceback.format_exc()[-1800:], 'lean': [], 'ops': []}
+    finally:
+        gc.collect()   # coroutines of an aborted run are finalised NOW (their `finally` blocks touch the runtime proxy), not during the next case
 
 
 DIRECTED = {
@@ -411,9 +425,22 @@ def make_cases(ctx, extra):
     return cases
 
 
+def run_driver(lines):
+    """the lean build directory is shared with concurrently building workers: retry when an .olean is missing"""
+    import time
+    for attempt in range(4):
+        out = common.LeanDriver('Arrays').run(lines)
+        if not isinstance(out, common.DriverFailure) or 'does not exist' not in ' '.join(out[-3:]):
+            return out
+        time.sleep(20)
+        common.lean_build(LEAN_MODULES)
+    return out
+
+
 def run_cases(ctx, cases):
     nproc = min(16, os.cpu_count() or 4)
-    with mp.get_context('fork').Pool(nproc, maxtasksperchild=100) as pool:
+    _imports()      # import once in the parent: forked workers inherit the modules
+    with mp.get_context('fork').Pool(nproc, maxtasksperchild=1) as pool:
         results = pool.map(_worker, sorted(cases, key=lambda c: (c['group'] not in ('irreducible', 'invpow', 'gcd'), -c['p'])), chunksize=1)
     lean_req, lean_impl, meta = [], [], []
     for res in results:
@@ -432,6 +459,7 @@ def run_cases(ctx, cases):
             raise common.InfraError(f"worker failed on {case}: {res['detail']}")
         if res['status'] == 'violation':
             rep = dict(case)
+            rep.update({'PA': res.get('PA'), 'PB': res.get('PB'), 'sched': res.get('sched')})
             rep.update({'kind_of_failure': res['failure'], 'detail': res['detail'], 'program': res.get('program'),
                         'expected': res.get('expected'), 'observed': res.get('observed'), 'operation': res.get('op')})
             if res.get('finding_key'):
@@ -444,7 +472,7 @@ def run_cases(ctx, cases):
             lean_impl.append(impl)
             meta.append(case)
     if lean_req:
-        model = common.LeanDriver('Arrays').run(lean_req)
+        model = run_driver(lean_req)
         ctx.compare('padded coefficient arrays / public lengths (secpols.py vs MpycV.SecPol)', lean_impl, model,
                     [{'request': r, 'case': c} for r, c in zip(lean_req, meta)])
 
@@ -460,7 +488,7 @@ def search(ctx):
 
 
 def replay(ctx, data):
-    case = {k: data[k] for k in ('group', 'p', 'm', 'no_prss', 'seed', 'directed') if k in data}
+    case = {k: data[k] for k in ('group', 'p', 'm', 'no_prss', 'seed', 'directed', 'PA', 'PB', 'sched') if k in data and data[k] is not None}
     res = _worker(case)
     if res['status'] == 'ok':
         return True, 'ok'
